@@ -1,6 +1,6 @@
 SPECIFICATION Spec
 CONSTANTS
-  MaxObjs = 2
+  MaxObjs = 3
   UIds <- UAll
   RowSet <- RowsPairwise
   AllowDup = FALSE
